@@ -603,6 +603,31 @@ impl<'s> Runner<'s> {
         Ok((vm, co))
     }
 
+    /// Does a fresh VM that holds verifier `vid` (and calculator `calc`) load program `pid`?
+    fn fresh_load_outcome(&mut self, pid: usize, vid: u8, calc: Option<u8>, offsets: (usize, usize)) -> Step<Outcome> {
+        guard::mark_phase(guard::PHASE_FRESH);
+        let mut vm = match AnyVm::new(self.sc.kind, None, offsets.0, offsets.1) {
+            Ok(vm) => vm,
+            Err(o) => return Err(Stop::Abort(format!("fresh VM: new(None) -> {}", o.short()))),
+        };
+        if vid != V_DEFAULT {
+            let o = vm.set_verifier(vid);
+            if !o.is_ok() {
+                return Err(Stop::Abort(format!("fresh VM: set_verifier -> {}", o.short())));
+            }
+        }
+        if let Some(c) = calc {
+            let o = vm.set_calc(c);
+            if !o.is_ok() {
+                return Err(Stop::Abort(format!("fresh VM: set_calc -> {}", o.short())));
+            }
+        }
+        let bytes: &[u8] = unsafe { std::slice::from_raw_parts(self.arena.progs[pid].as_ptr(), self.arena.progs[pid].len()) };
+        let o = vm.set_program(bytes, offsets.0, offsets.1);
+        guard::mark_phase(guard::PHASE_SUT);
+        Ok(o)
+    }
+
     fn observe(&mut self, vm: &mut AnyVm, engine: Engine, pkt: usize, mb: usize) -> ExecObs {
         let pb = self.pkt_buf(pkt);
         let mbb = self.mb_buf(mb);
@@ -1133,6 +1158,16 @@ impl<'s> Runner<'s> {
         }
     }
 
+    /// For calls that failed: the verifier in force may or may not have been consulted, but nothing
+    /// else may have been.
+    fn check_verifier_log_lenient(&mut self, at: usize, opname: &'static str, expect: (u8, &[u8])) -> Step<()> {
+        let empty = tls(|t| t.verifier_log.is_empty());
+        if empty {
+            return Ok(());
+        }
+        self.check_verifier_log(at, opname, Some(expect))
+    }
+
     fn check_verifier_log(&mut self, at: usize, opname: &'static str, expect: Option<(u8, &[u8])>) -> Step<()> {
         let log = tls(|t| std::mem::take(&mut t.verifier_log));
         for (vid, h, len) in &log {
@@ -1176,6 +1211,9 @@ impl<'s> Runner<'s> {
     }
 
     fn do_op(&mut self, at: usize, op: &Op) -> Step<()> {
+        if guard::GUARD_TABLE_FULL.swap(0, std::sync::atomic::Ordering::Relaxed) == 1 {
+            return Err(Stop::Abort("the allocator seam ran out of guard-table entries".into()));
+        }
         guard::mark_op(at as u64);
         guard::mark_phase(guard::PHASE_SUT);
         let safe = op_is_safe(self.sc, self.model.as_ref(), op);
@@ -1230,7 +1268,15 @@ impl<'s> Runner<'s> {
                     (Ok(_), false) => Err(self.c10("load-accepted-but-verifier-rejects/new".into(), at, format!("new(Some(prog#{})) succeeded although the default verifier rejects that program", pid.unwrap()))),
                     (Err(o), true) => {
                         if matches!(o, Outcome::Err(_)) {
-                            Err(self.c10("load-rejected-but-verifier-accepts/new".into(), at, format!("new({:?}) failed with {} although the default verifier accepts the program", pid, o.short())))
+                            // only a violation if new(None) + set_program of the same program works
+                            let fresh_loads = self.fresh_load_outcome(pid.unwrap(), V_DEFAULT, None, (*doff, *eoff))?;
+                            tls(|t| t.verifier_log.clear());
+                            if !fresh_loads.is_ok() {
+                                self.counters.inc("new_rejected");
+                                self.note_state(op, 1);
+                                return Ok(());
+                            }
+                            Err(self.c10("load-rejected-but-verifier-accepts/new".into(), at, format!("new({:?}) failed with {} although the default verifier accepts the program and new(None) + set_program loads it", pid, o.short())))
                         } else {
                             Err(self.c10("history-dependent-panic-or-crash/new".into(), at, format!("new({:?}) -> {}", pid, o.short())))
                         }
@@ -1304,12 +1350,29 @@ impl<'s> Runner<'s> {
                         Ok(())
                     }
                     (true, false) => Err(self.c10("load-accepted-but-verifier-rejects/set_program".into(), at, format!("set_program(prog#{}) returned Ok although the verifier in force ('{}') rejects it{}", pid, V_NAMES[m.verifier as usize], if veto_fires { " (injected veto)" } else { "" }))),
-                    (false, true) => Err(self.c10("load-rejected-but-verifier-accepts/set_program".into(), at, format!("set_program(prog#{}) returned {} although the verifier in force ('{}') accepts it", pid, o.short(), V_NAMES[m.verifier as usize]))),
+                    (false, true) => {
+                        // C10 does not say that whatever the verifier accepts must load (an
+                        // implementation may validate more, e.g. frame sizes): it is a violation only if
+                        // a fresh VM with the same verifier and calculator does load this program.
+                        tls(|t| t.verifier_log.clear());
+                        let fresh_loads = self.fresh_load_outcome(*pid, m.verifier, m.calc, (*doff, *eoff))?;
+                        tls(|t| t.verifier_log.clear());
+                        if fresh_loads.is_ok() {
+                            return Err(self.c10("load-rejected-but-verifier-accepts/set_program".into(), at, format!("set_program(prog#{}) returned {} although the verifier in force ('{}') accepts it and a fresh VM with that verifier loads it", pid, o.short(), V_NAMES[m.verifier as usize])));
+                        }
+                        self.counters.inc("set_program_rejected_beyond_the_verifier");
+                        self.note_state(op, 1);
+                        self.last_fail_then_exec = true;
+                        self.sweep(at, Some("set_program"))
+                    }
                     (false, false) => {
                         self.counters.inc("set_program_rejected");
                         self.note_state(op, 1);
+                        // a load may be refused before the verifier is asked (e.g. a length that is
+                        // not a whole number of instructions); what must not happen is that some
+                        // *other* verifier, or other bytes, were involved
                         if harness_verifier {
-                            self.check_verifier_log(at, "set_program", Some((m.verifier, bytes)))?;
+                            self.check_verifier_log_lenient(at, "set_program", (m.verifier, bytes))?;
                         } else {
                             self.check_verifier_log(at, "set_program", None)?;
                         }
@@ -1362,7 +1425,7 @@ impl<'s> Runner<'s> {
                         self.counters.inc("set_verifier_rejected");
                         self.note_state(op, 1);
                         if let Some(b) = &loaded {
-                            self.check_verifier_log(at, "set_verifier", Some((*vid, b)))?;
+                            self.check_verifier_log_lenient(at, "set_verifier", (*vid, b))?;
                         }
                         self.last_fail_then_exec = true;
                         self.sweep(at, Some("set_verifier"))
@@ -1448,10 +1511,12 @@ impl<'s> Runner<'s> {
                     return Ok(());
                 }
                 let fo = fresh_outcome.unwrap();
-                if inject && fired > 0 {
-                    if !o.is_err() {
-                        return Err(self.c10(format!("fault-not-reported/{}", opname), at, format!("the code-page allocation failed but {} returned {}", opname, o.short())));
-                    }
+                if inject && fired > 0 && !o.is_err() && !o.is_ok() {
+                    return Err(self.c10(format!("history-dependent-panic-or-crash/{}", opname), at, format!("the code-page allocation failed and {} -> {}", opname, o.short())));
+                }
+                if inject && fired > 0 && o.is_err() {
+                    // (an implementation that retries the allocation and succeeds is as good: then the
+                    // call is judged like any successful compile below)
                     self.counters.inc("jit_compile_failed_by_fault");
                     self.mark_compiled_uncertain(engine);
                     self.note_state(op, 1);
